@@ -748,6 +748,49 @@ impl Gen {
                 }
                 Op::ChownB { p: self.arg(p, m, rng), calls }
             },
+            "macro" => {
+                let checking = ["exists", "no_exists", "is_dir", "no_dir", "is_file", "no_file", "is_symlink", "no_symlink", "read_all", "readlink", "readlink_abs"];
+                let acting = ["mkdir_p", "mkdir_m", "mkfile", "write_all", "copyfile", "symlink", "remove", "remove_all"];
+                let name = if rng.chance(3, 5) { *rng.pick(&checking) } else { *rng.pick(&acting) };
+                let a = match name {
+                    "readlink" | "readlink_abs" => self.p_target(m, rng, Some(LINKS)),
+                    "read_all" | "copyfile" => self.p_target(m, rng, Some(FILEISH)),
+                    "mkdir_p" | "mkdir_m" | "mkfile" | "write_all" | "symlink" => self.p_create(m, rng),
+                    _ => self.p_target(m, rng, None),
+                };
+                let mut b = None;
+                let mut d = None;
+                let mut mode = None;
+                match name {
+                    "read_all" => {
+                        // mostly the right content, sometimes a near miss
+                        let cur = m.abs(&a).ok().and_then(|p| m.t.nodes.get(&p).and_then(|n| n.data.clone()));
+                        d = Some(match (cur, rng.below(4)) {
+                            (Some(c), 0..=1) => c,
+                            (Some(c), 2) => Bytes([c.0.clone(), b"\n".to_vec()].concat()),
+                            _ => Bytes(b"something else".to_vec()),
+                        });
+                    },
+                    "write_all" => d = Some(Bytes(format!("<m{}.{}>text", self.run_tag, self.step).into_bytes())),
+                    "readlink" | "readlink_abs" => {
+                        let node = m.abs(&a).ok().and_then(|p| m.t.nodes.get(&p).cloned());
+                        let (rel, tgt) = node.map(|n| (n.rel.unwrap_or_default(), n.target.unwrap_or_default())).unwrap_or_default();
+                        let right = if name == "readlink" { rel } else { tgt };
+                        b = Some(match rng.below(5) {
+                            0..=1 if !right.is_empty() => right,
+                            2 if !right.is_empty() => format!("/zz{}", if right.starts_with('/') { right.clone() } else { format!("/{}", right) }),
+                            3 if !right.is_empty() => format!("x{}", right),
+                            _ => self.random_path(rng),
+                        });
+                    },
+                    "copyfile" => b = Some(if rng.chance(1, 2) { self.fresh_child(m, rng) } else { self.p_target(m, rng, None) }),
+                    "symlink" => b = Some(self.p_target(m, rng, None)),
+                    "mkdir_m" => mode = Some(0o40000 | self.mode(rng)),
+                    _ => {},
+                }
+                let a = self.arg(a, m, rng);
+                Op::Macro { name: name.to_string(), a, b, mode, d }
+            },
             "open_read" => {
                 let h = self.free_slot(m, rng, false, None);
                 let p = self.p_target(m, rng, Some(FILEISH));
